@@ -161,7 +161,7 @@ class C12(OptEngineBase):
     PROBES = [
         "early_stop", "stop_at_i1", "hit_max_iter_converged", "hit_max_iter_not_converged", "chi2_increase_seen", "nan_chi2",
         "chi2_exact_zero", "split_ge_3", "clock_backwards", "clock_frozen", "stdout_failed", "clone_after_abort", "clone_checked",
-        "table_parsed", "table_unparsed", "stop_rule_ambiguous", "stdout_none", "str_parsed",
+        "table_parsed", "table_unparsed", "stop_rule_ambiguous", "stdout_none", "str_parsed", "singular_raised_as_error",
     ]
 
     def generate(self, rng, tier, index):
@@ -276,10 +276,14 @@ class C12(OptEngineBase):
                     sig_ops.append(["optimize", "raised:" + type(raised).__name__])
                     res.outcome("raised:" + type(raised).__name__)
                     log.note("optimize", "raised:" + type(raised).__name__)
-                    if not (fired_kinds & set(STDOUT_FAULTS)):
+                    natural = type(raised).__name__ == "MatrixRankWarning" and (case.get("config") or {}).get("warnings", {}).get("kind") == "error"
+                    if natural:
+                        res.probe("singular_raised_as_error")
+                    if not (fired_kinds & set(STDOUT_FAULTS)) and not natural:
                         res.violate("C12:unexpected-exception", "op %d optimize raised %s: %s with no failing sink" % (i, type(raised).__name__, raised))
                         break
-                    res.probe("stdout_failed")
+                    if not natural:
+                        res.probe("stdout_failed")
                     # the aborted call stopped somewhere; resynchronise the stepper from visible state
                     B = graphs.clone(A)
                     force_clone = True
